@@ -27,9 +27,11 @@ func init() {
 			fs.Enum("cmp", "unknown", path)
 			fs.OptNat("wRealm", 0, false, path)
 			fs.OptNat("wSwamp", 0, false, path)
-			for _, n := range []string{"persistsInMem", "persistsIdle", "persistsWi", "persistsSize", "unchangedChecksType", "saveAtomic"} {
+			for _, n := range []string{"persistsInMem", "persistsIdle", "persistsWi", "persistsSize", "unchangedChecksType", "saveAtomic", "unchangedChecksDisk"} {
 				fs.Tri(n, Unknown, path)
 			}
+			fs.Tri("comparePatternExact", Unknown, "app/name/name.go")
+			fs.Tri("summonResolvesFresh", Unknown, "app/core/hydra/hydra.go")
 		}
 		f, err := Load(path)
 		if err != nil {
@@ -42,6 +44,7 @@ func init() {
 		c21Persist(fs, f, path)
 		c21Unchanged(fs, f, path)
 		c21SaveAtomic(fs, f, path)
+		c21Glue(fs)
 	}})
 }
 
@@ -83,7 +86,7 @@ func c21HasReturn(n ast.Node) bool {
 }
 
 func c21Lookup(fs *Facts, f *File, path string) {
-	fd := f.Func("settings", "GetBySwampName")
+	fd := miscFunc(f, "settings", "GetBySwampName")
 	if fd == nil || fd.Body == nil || !c21FieldIsMap(f, "settings", "patterns") {
 		return
 	}
@@ -98,6 +101,7 @@ func c21Lookup(fs *Facts, f *File, path string) {
 		return
 	}
 	loop := loops[0]
+	miscUnContinue(loop.Body)
 	where := path + ":" + itoa(f.Line(loop))
 	if len(f.CallsSuffix(loop.Body, ".ComparePattern")) != 1 {
 		return
@@ -105,7 +109,7 @@ func c21Lookup(fs *Facts, f *File, path string) {
 	if c21HasReturn(loop.Body) {
 		// first match wins: `if swampName.ComparePattern(..) { return pi }` directly in the body
 		for _, st := range loop.Body.List {
-			if is, ok := st.(*ast.IfStmt); ok && len(f.CallsSuffix(is.Cond, ".ComparePattern")) == 1 && c21HasReturn(is.Body) {
+			if is, ok := st.(*ast.IfStmt); ok && len(f.CallsSuffix(is.Cond, ".ComparePattern")) == 1 && c21HasReturn(is.Body) && !strings.HasPrefix(f.Str(is.Cond), "!") {
 				fs.Enum("lookup", "iteratesMap", where)
 				return
 			}
@@ -152,7 +156,7 @@ func c21Lookup(fs *Facts, f *File, path string) {
 	})
 	type hit struct {
 		cmp, fn string
-		line int
+		line    int
 	}
 	var hits []hit
 	ast.Inspect(loop.Body, func(n ast.Node) bool {
@@ -212,7 +216,7 @@ func c21Lookup(fs *Facts, f *File, path string) {
 	fs.Enum("lookup", "ranked", where)
 	fs.Enum("cmp", hits[0].cmp, path+":"+itoa(hits[0].line))
 	// weights
-	rf := f.Func("", rankFn)
+	rf := miscFunc(f, "", rankFn)
 	if rf == nil || rf.Body == nil {
 		return
 	}
@@ -272,8 +276,8 @@ func c21Persist(fs *Facts, f *File, path string) {
 		{"persistsWi", "WriteIntervalSec", "WriteIntervalSec"},
 		{"persistsSize", "MaxFileSizeByte", "MaxFileSizeByte"},
 	}
-	reg := f.Func("settings", "RegisterPattern")
-	ld := f.Func("settings", "loadSettingsFromFilesystem")
+	reg := miscFunc(f, "settings", "RegisterPattern")
+	ld := miscFunc(f, "settings", "loadSettingsFromFilesystem")
 	if reg == nil || ld == nil {
 		return
 	}
@@ -318,29 +322,52 @@ func c21Persist(fs *Facts, f *File, path string) {
 	if loadLit == nil || loadVar == "" {
 		return
 	}
-	// the PatternModel literal and `pm.X = …` assignments in RegisterPattern
+	// the PatternModel literal and `pm.X = …` assignments in RegisterPattern — or, one level down, in a helper of this
+	// file that RegisterPattern calls
 	saved := map[string]bool{}
-	ast.Inspect(reg.Body, func(n ast.Node) bool {
-		switch x := n.(type) {
-		case *ast.CompositeLit:
-			if f.Str(x.Type) == "PatternModel" {
-				for _, el := range x.Elts {
-					if kv, ok := el.(*ast.KeyValueExpr); ok {
-						saved[f.Str(kv.Key)] = true
+	scan := func(body ast.Node) {
+		ast.Inspect(body, func(n ast.Node) bool {
+			switch x := n.(type) {
+			case *ast.CompositeLit:
+				if f.Str(x.Type) == "PatternModel" {
+					for _, el := range x.Elts {
+						if kv, ok := el.(*ast.KeyValueExpr); ok {
+							saved[f.Str(kv.Key)] = true
+						}
+					}
+				}
+			case *ast.AssignStmt:
+				for _, l := range x.Lhs {
+					if se, ok := l.(*ast.SelectorExpr); ok {
+						if _, isPM := tags[se.Sel.Name]; isPM {
+							saved[se.Sel.Name] = true
+						}
 					}
 				}
 			}
-		case *ast.AssignStmt:
-			for _, l := range x.Lhs {
-				if s := f.Str(l); strings.HasPrefix(s, "pm.") {
-					saved[strings.TrimPrefix(s, "pm.")] = true
+			return true
+		})
+	}
+	scan(reg.Body)
+	if !saved["NameCanonicalForm"] {
+		ast.Inspect(reg.Body, func(n ast.Node) bool {
+			if c, ok := n.(*ast.CallExpr); ok {
+				callee := ""
+				switch fn := c.Fun.(type) {
+				case *ast.Ident:
+					callee = fn.Name
+				case *ast.SelectorExpr:
+					callee = fn.Sel.Name
+				}
+				if h := f.Func("", callee); h != nil && h.Body != nil && h != reg {
+					scan(h.Body)
 				}
 			}
-		}
-		return true
-	})
-	if len(saved) == 0 {
-		return
+			return true
+		})
+	}
+	if !saved["NameCanonicalForm"] {
+		return // the place where the model entry is built was not found: every persists* fact stays unknown
 	}
 	loaded := map[string]bool{}
 	for _, el := range loadLit.Elts {
@@ -379,7 +406,7 @@ func c21SelOf(f *File, e ast.Expr, v string) string {
 //	compares GetCloseAfterIdle / GetWriteInterval / GetMaxFileSizeByte of the stored entry with the new values;
 //	unchangedChecksType = yes when <cond> also requires `…GetSwampType() == setting.PermanentSwamp`, no when it does not.
 func c21Unchanged(fs *Facts, f *File, path string) {
-	fd := f.Func("settings", "RegisterPattern")
+	fd := miscFunc(f, "settings", "RegisterPattern")
 	if fd == nil || fd.Body == nil {
 		return
 	}
@@ -422,6 +449,17 @@ func c21Unchanged(fs *Facts, f *File, path string) {
 		return
 	}
 	fs.Tri("unchangedChecksType", TriOf(strings.Contains(cond, "s.patterns[pattern.Get()].GetSwampType() == setting.PermanentSwamp &&")), path+":"+itoa(f.Line(inner)))
+	// is the early return taken only while the file is up to date?  `!s.unsaved.Load() &&` must be a conjunct and
+	// SaveSettingsToFilesystem must record its outcome: `defer func() { s.unsaved.Store(err != nil) }()`
+	disk := No
+	if strings.Contains(cond, "!s.unsaved.Load() &&") {
+		disk = Unknown
+		if sv := miscFunc(f, "settings", "SaveSettingsToFilesystem"); sv != nil && f.Contains(sv, "defer func() { s.unsaved.Store(err != nil) }()") &&
+			sv.Type.Results != nil && len(sv.Type.Results.List) == 1 && len(sv.Type.Results.List[0].Names) == 1 && sv.Type.Results.List[0].Names[0].Name == "err" {
+			disk = Yes
+		}
+	}
+	fs.Tri("unchangedChecksDisk", disk, path+":"+itoa(f.Line(inner)))
 }
 
 // c21SaveAtomic: SaveSettingsToFilesystem.
@@ -429,7 +467,7 @@ func c21Unchanged(fs *Facts, f *File, path string) {
 //	no : the marshalled model goes straight to the final path with os.WriteFile(filePath, …)
 //	yes: it is written to a temporary path and moved over the final one with os.Rename(<tmp>, filePath)
 func c21SaveAtomic(fs *Facts, f *File, path string) {
-	fd := f.Func("settings", "SaveSettingsToFilesystem")
+	fd := miscFunc(f, "settings", "SaveSettingsToFilesystem")
 	if fd == nil || fd.Body == nil || !f.Contains(fd, "filePath := path.Join(hydraSettingsFolderPath, fileName)") {
 		return
 	}
@@ -442,5 +480,68 @@ func c21SaveAtomic(fs *Facts, f *File, path string) {
 	case len(writes) == 1 && len(renames) == 1 && f.Str(writes[0].Args[0]) != "filePath" &&
 		f.Str(renames[0].Args[0]) == f.Str(writes[0].Args[0]) && f.Str(renames[0].Args[1]) == "filePath":
 		fs.Tri("saveAtomic", Yes, where)
+	}
+}
+
+// c21Glue: the two places outside settings.go the resolution depends on.
+//
+//	comparePatternExact  yes: name.ComparePattern is exactly
+//	                          if n.SanctuaryID != p.GetSanctuaryID() { return false }
+//	                          if p.GetRealmName() != "*" && n.RealmName != p.GetRealmName() { return false }
+//	                          if p.GetSwampName() != "*" && n.SwampName != p.GetSwampName() { return false }
+//	                          return true
+//	summonResolvesFresh  yes: hydra.createNewSwamp starts with `swampSettings := h.settingsInterface.GetBySwampName(swampName)`,
+//	                          and swampSettings is assigned nowhere else in the function
+func c21Glue(fs *Facts) {
+	const npath = "app/name/name.go"
+	if nf, err := Load(npath); err == nil {
+		if fd := nf.Func("name", "ComparePattern"); fd != nil && fd.Body != nil && fd.Recv != nil && len(fd.Recv.List[0].Names) == 1 &&
+			fd.Type.Params != nil && len(fd.Type.Params.List) == 1 && len(fd.Type.Params.List[0].Names) == 1 {
+			c07Canon(fd, append([]string{"n", "p"}, c07LocalNames(fd)[2:]...))
+			var got []string
+			for _, st := range fd.Body.List {
+				got = append(got, nf.Str(st))
+			}
+			want := []string{
+				`if n.SanctuaryID != p.GetSanctuaryID() { return false }`,
+				`if p.GetRealmName() != "*" && n.RealmName != p.GetRealmName() { return false }`,
+				`if p.GetSwampName() != "*" && n.SwampName != p.GetSwampName() { return false }`,
+				`return true`}
+			if strings.Join(got, "\n") == strings.Join(want, "\n") {
+				fs.Tri("comparePatternExact", Yes, npath+":"+itoa(nf.Line(fd)))
+			}
+		}
+	} else {
+		fs.Err("%v", err)
+	}
+	const hpath = "app/core/hydra/hydra.go"
+	if hf, err := Load(hpath); err == nil {
+		if fd := hf.Func("hydra", "createNewSwamp"); fd != nil && fd.Body != nil && len(fd.Body.List) > 0 {
+			c07Canon(fd, append([]string{"h", "islandID", "swampName"}, c07LocalNames(fd)[3:]...))
+			first := hf.Str(fd.Body.List[0]) == "swampSettings := h.settingsInterface.GetBySwampName(swampName)"
+			assigns := 0
+			ast.Inspect(fd, func(n ast.Node) bool {
+				if as, ok := n.(*ast.AssignStmt); ok {
+					for _, l := range as.Lhs {
+						if hf.Str(l) == "swampSettings" {
+							assigns++
+						}
+					}
+				}
+				if vs, ok := n.(*ast.ValueSpec); ok {
+					for _, nm := range vs.Names {
+						if nm.Name == "swampSettings" {
+							assigns++
+						}
+					}
+				}
+				return true
+			})
+			if first && assigns == 1 {
+				fs.Tri("summonResolvesFresh", Yes, hpath+":"+itoa(hf.Line(fd)))
+			}
+		}
+	} else {
+		fs.Err("%v", err)
 	}
 }
